@@ -108,3 +108,101 @@ def register6(E):
             if e.branch(E.eq_val(k, a[1])): return HMValRef(hm, i)
         from .engine import Panic
         raise Panic('HashMap index: key not found')
+
+    # ---------------------------------------------------------------- VecDeque as a list (front = index 0)
+    VD = r'^(std::collections::)?(VecDeque|vec_deque::VecDeque)::<.*>::'
+    def vd(x):
+        d = deref(x)
+        if not (isinstance(d, Vec) and d.ty == 'VecDeque'): raise EngineError(f'not a VecDeque: {d!r}')
+        return d
+    @R(VD + r'(new|with_capacity)$|^<(std::collections::)?VecDeque<.*> as Default>::default$')
+    def _(e, c, a): return Vec([], 'VecDeque')
+    @R(VD + r'push_front$')
+    def _(e, c, a): vd(a[0]).l.insert(0, a[1]); return UNIT
+    @R(VD + r'push_back$')
+    def _(e, c, a): vd(a[0]).l.append(a[1]); return UNIT
+    @R(VD + r'pop_front$')
+    def _(e, c, a): l = vd(a[0]).l; return SOME(l.pop(0)) if l else NONE()
+    @R(VD + r'pop_back$')
+    def _(e, c, a): l = vd(a[0]).l; return SOME(l.pop()) if l else NONE()
+    @R(VD + r'(front|front_mut)$')
+    def _(e, c, a): l = vd(a[0]).l; return SOME(Ref(l, 0)) if l else NONE()
+    @R(VD + r'(back|back_mut)$')
+    def _(e, c, a): l = vd(a[0]).l; return SOME(Ref(l, len(l) - 1)) if l else NONE()
+    @R(VD + r'len$')
+    def _(e, c, a): return len(vd(a[0]).l)
+    @R(VD + r'is_empty$')
+    def _(e, c, a): return len(vd(a[0]).l) == 0
+    @R(VD + r'clear$')
+    def _(e, c, a): vd(a[0]).l.clear(); return UNIT
+    @R(VD + r'(iter|iter_mut)$')
+    def _(e, c, a): l = vd(a[0]).l; return It('slice', l=l, pos=0, end=len(l))
+    @R(VD + r'binary_search$')
+    def _(e, c, a):
+        from .engine import OK, ERR
+        l = vd(a[0]).l; size = len(l)
+        if size == 0: return ERR(0)
+        base = 0
+        while size > 1:
+            half = size // 2; mid = base + half
+            if e.cmp3(l[mid], a[1]) != 'Greater': base = mid
+            size -= half
+        o = e.cmp3(l[base], a[1])
+        return OK(base) if o == 'Equal' else ERR(base + (1 if o == 'Less' else 0))
+
+    # ---------------------------------------------------------------- BTreeMap::last_entry / first_entry and OccupiedEntry
+    from .models5 import BTreeMapM
+    BT = r'^(std::collections::)?(BTreeMap|btree_map::BTreeMap)::<.*>::'
+    @R(BT + r'(last_entry|first_entry)$')
+    def _(e, c, a):
+        m = deref(a[0])
+        if not isinstance(m, BTreeMapM): raise EngineError(f'not a BTreeMap: {m!r}')
+        if not m.items: return NONE()
+        return SOME(Agg([m, Ref(m.items[-1 if 'last' in c else 0][1], 0)], 'BTOccupied'))          # the value cell identifies the entry (Refs are not deep-copied on moves)
+    def occ(x):
+        o = deref(x)
+        if not (isinstance(o, Agg) and o.ty == 'BTOccupied'): raise EngineError(f'not an OccupiedEntry: {o!r}')
+        m, r = o.f
+        for i, (kk, cell) in enumerate(m.items):
+            if cell is r.c: return m, i
+        raise EngineError('stale OccupiedEntry')
+    OE = r'^(std::collections::)?(btree_map::)?OccupiedEntry::<.*>::'
+    @R(OE + r'key$')
+    def _(e, c, a): m, i = occ(a[0]); return Ref([m.items[i][0]], 0)
+    @R(OE + r'(get|get_mut|into_mut)$')
+    def _(e, c, a): m, i = occ(a[0]); return Ref(m.items[i][1], 0)
+    @R(OE + r'remove$')
+    def _(e, c, a): m, i = occ(a[0]); return m.items.pop(i)[1][0]
+    @R(OE + r'remove_entry$')
+    def _(e, c, a): m, i = occ(a[0]); k, cell = m.items.pop(i); return Agg([k, cell[0]], 'tup')
+    @R(OE + r'insert$')
+    def _(e, c, a): m, i = occ(a[0]); old = m.items[i][1][0]; m.items[i][1][0] = a[1]; return old
+
+    # ---------------------------------------------------------------- Rc<[T]> / Arc<[T]> from arrays and vectors: a shared immutable Vec
+    @R(r'^<(std::rc::|std::sync::|alloc::rc::|alloc::sync::)?(Rc|Arc)<\[.*\]> as From<.*>>::from$|^<(\[.*\]|(std::vec::)?Vec<.*>) as Into<(std::rc::|std::sync::)?(Rc|Arc)<\[.*\]>>>::into$')
+    def _(e, c, a):
+        v = deref(a[0])
+        return Ref([Vec(list(v.f if isinstance(v, Agg) else v.l), 'Vec')], 0)
+    @R(r'^<(std::rc::|std::sync::|alloc::rc::|alloc::sync::)?(Rc|Arc)<.*> as Clone>::clone$')
+    def _(e, c, a):
+        x = a[0]
+        while isinstance(x, Ref) and isinstance(x.get(), Ref): x = x.get()
+        return x
+
+    # ---------------------------------------------------------------- Itertools::minmax
+    @R(r' as Itertools>::minmax$')
+    def _(e, c, a):
+        xs = E.drain_iter(E.it_of(a[0]))
+        if not xs: return Enum('NoElements', [], 'MinMaxResult')
+        if len(xs) == 1: return Enum('OneElement', [xs[0]], 'MinMaxResult')
+        lo = hi = xs[0]
+        for x in xs[1:]:
+            if e.cmp3(x, lo) == 'Less': lo = x
+            if e.cmp3(x, hi) != 'Less': hi = x
+        return Enum('MinMax', [lo, hi], 'MinMaxResult')
+    @R(r'MinMaxResult::<.*>::into_option$')
+    def _(e, c, a):
+        r = a[0]
+        if r.v == 'NoElements': return NONE()
+        if r.v == 'OneElement': return SOME(Agg([r.f[0], e.copy_val(r.f[0])], 'tup'))
+        return SOME(Agg([r.f[0], r.f[1]], 'tup'))
